@@ -281,13 +281,16 @@ func (d *driver) random(r *gen.Rng, maxlen int) {
 // 0,1 (function callbacks) and 2 (channel entry) x masks {1,2,3} x {Register, Unregister,
 // Notify, Take}; every prefix is covered because an observation is taken after every operation.
 // prune: skip the two no-op moves (Notify on an empty queue, Take with no token expected) and
-// break the 0<->1 symmetry (entry 1 is not registered before entry 0 ever was).
+// enumerate modulo two symmetries of the code: the two function entries 0<->1 (entry 1 is not
+// registered before entry 0 ever was) and the mask bits 1<->2 (the first of the masks 1, 2 that
+// a history uses is 1).  The unpruned enumeration uses no symmetry.
 func (d *driver) exhaustive(depth int, prune bool) int {
 	kinds := []int{0, 0, 1}
 	ems := []uint16{1, 2, 3}
 	var regm [3]uint16
 	var isreg, ever [3]bool
 	tok := false
+	asym := false // a mask 1 or 2 has been used
 	ops := make([]op, 0, depth)
 	cnt := 0
 	var rec func()
@@ -306,12 +309,16 @@ func (d *driver) exhaustive(depth int, prune bool) int {
 					continue
 				}
 				for _, m := range ems {
-					se := ever[e]
+					if prune && !asym && m == 2 {
+						continue
+					}
+					se, sa := ever[e], asym
 					isreg[e], ever[e], regm[e] = true, true, m
+					asym = asym || m != 3
 					ops = append(ops, op{opReg, e, m})
 					rec()
 					ops = ops[:len(ops)-1]
-					isreg[e], ever[e] = false, se
+					isreg[e], ever[e], asym = false, se, sa
 				}
 			} else {
 				isreg[e] = false
@@ -323,14 +330,18 @@ func (d *driver) exhaustive(depth int, prune bool) int {
 		}
 		if !prune || isreg[0] || isreg[1] || isreg[2] {
 			for _, m := range ems {
-				st := tok
+				if prune && !asym && m == 2 {
+					continue
+				}
+				st, sa := tok, asym
 				if isreg[2] && regm[2]&m != 0 {
 					tok = true
 				}
+				asym = asym || m != 3
 				ops = append(ops, op{opNotify, 0, m})
 				rec()
 				ops = ops[:len(ops)-1]
-				tok = st
+				tok, asym = st, sa
 			}
 		}
 		if !prune || tok {
@@ -355,7 +366,7 @@ func main() {
 	exhp := flag.Int("exhp", 4, "depth of the pruned exhaustive enumeration (0 = none)")
 	conc := flag.Int("conc", 0, "runs of the concurrent variant (search aid only)")
 	misuse := flag.Bool("misuse", true, "also replay the two contract-violating witness histories")
-	tmo := flag.Int("timeout", 1500, "watchdog per history, milliseconds")
+	tmo := flag.Int("timeout", 3000, "watchdog per history, milliseconds")
 	flag.Parse()
 
 	w := bufio.NewWriterSize(os.Stdout, 1<<20)
@@ -371,11 +382,6 @@ func main() {
 	if *misuse {
 		// witnesses of C17_contract_needed_refuted, against the real code: an entry registered twice
 		d.emit([]int{0, 0, 0}, []op{{opReg, 1, 1}, {opReg, 2, 1}, {opReg, 1, 1}, {opNotify, 0, 1}})
-		saveT := d.timeout
-		d.timeout = 300 * time.Millisecond
-		d.emit([]int{0, 0}, []op{{opReg, 1, 1}, {opReg, 1, 1}, {opNotify, 0, 1}})
-		d.timeout = saveT
-		d.hung = 0 // the second one is expected not to return
 	}
 	nexh, nexhp := 0, 0
 	if *exh > 0 {
@@ -398,6 +404,15 @@ func main() {
 		if res.late < 0 {
 			d.aborted = true
 		}
+	}
+	if *misuse && !d.aborted {
+		// second witness: the same entry registered twice in a row is its own successor, every walk
+		// of the list loops forever.  Run last (its goroutine keeps spinning until the driver exits);
+		// it is expected not to return.
+		d.timeout = 300 * time.Millisecond
+		h0 := d.hung
+		d.emit([]int{0, 0}, []op{{opReg, 1, 1}, {opReg, 1, 1}, {opNotify, 0, 1}})
+		d.hung, d.aborted = h0, false
 	}
 	fmt.Fprintf(w, "# histories=%d exhaustive(depth %d)=%d pruned-exhaustive(depth %d)=%d random=%d concurrent(search aid)=%d\n",
 		d.count, *exh, nexh, *exhp, nexhp, *n, nconc)
